@@ -91,6 +91,12 @@ func (c *ctx) genJoinCase(i int) *joinCase {
 			jc.fault = ""
 		}
 	}
+	c.rebuildJoinBody(jc)
+	return jc
+}
+
+// rebuildJoinBody (re)creates the request frame and JSON body from the fields of the case
+func (c *ctx) rebuildJoinBody(jc *joinCase) {
 	// the uplink frame
 	var phy lorawan.PHYPayload
 	var key lorawan.AES128Key
@@ -124,7 +130,6 @@ func (c *ctx) genJoinCase(i int) *joinCase {
 		base.MessageType = backend.RejoinReq
 		jc.body, _ = json.Marshal(backend.RejoinReqPayload{BasePayload: base, MACVersion: "1.1.0", PHYPayload: pb, DevEUI: jc.devEUI, DevAddr: jc.devAddr, DLSettings: jc.dl, RxDelay: jc.rxDelay, CFList: jc.cflist})
 	}
-	return jc
 }
 
 func envVal(k *backend.KeyEnvelope) M {
@@ -165,6 +170,12 @@ func (c *ctx) joinBatch(n int, concurrent bool) error {
 	for i := range cases {
 		jc := c.genJoinCase(i)
 		cases[i] = jc
+		if !concurrent && i > 0 && c.rnd.Intn(5) == 0 {
+			// a device that was re-provisioned: the DevEUI of an earlier request of this batch, new root keys / nonce
+			// (sequential batches only: the device table below is updated right before each request)
+			jc.devEUI = cases[c.rnd.Intn(i)].devEUI
+			c.rebuildJoinBody(jc)
+		}
 		if jc.known {
 			keys[jc.devEUI] = joinserver.DeviceKeys{DevEUI: jc.devEUI, NwkKey: jc.nwk, AppKey: jc.app, JoinNonce: jc.joinNonce}
 		}
@@ -230,6 +241,22 @@ func (c *ctx) joinBatch(n int, concurrent bool) error {
 	}
 	results := make([]result, n)
 	run := func(i int) {
+		if !concurrent { // the device table as it stands when this request arrives
+			jc := cases[i]
+			if jc.known {
+				keys[jc.devEUI] = joinserver.DeviceKeys{DevEUI: jc.devEUI, NwkKey: jc.nwk, AppKey: jc.app, JoinNonce: jc.joinNonce}
+			} else {
+				delete(keys, jc.devEUI)
+			}
+			devFault[jc.devEUI] = jc.fault == "devkeys"
+			labelFault[jc.devEUI] = jc.fault == "aslabel"
+			if jc.asKEK != nil {
+				aslabels[jc.devEUI] = jc.asLabel
+			} else {
+				delete(aslabels, jc.devEUI)
+			}
+			jc.faults = M{"dev": devFault[jc.devEUI], "nskek": kekFault[jc.reqSender], "aslabel": labelFault[jc.devEUI], "askek": jc.asKEK != nil && kekFault[jc.asLabel]}
+		}
 		rec := httptest.NewRecorder()
 		req := httptest.NewRequest("POST", "/", bytes.NewReader(cases[i].body))
 		h.ServeHTTP(rec, req)
